@@ -1296,4 +1296,28 @@ theorem store_ops_never_hang (v4 : Bool) (ops : List GOp) (op : GOp) :
   have j : JA g.p g.L := lengths_reachable v4 ops hw hm hb
   exact nh_gstep j op hroom
 
+/-- neither a panic nor a hang: a value or an error -/
+theorem total_of_np_nh {α : Type} {o : Outcome α} (hp : NP o) (hh : NH o) : (∃ a, o = .ok a) ∨ (∃ k, o = .err k) := by
+  cases o with
+  | ok a => exact Or.inl ⟨a, rfl⟩
+  | err k => exact Or.inr ⟨k, rfl⟩
+  | panic m => exact absurd rfl (hp m)
+  | hang m => exact absurd rfl (hh m)
+
+theorem wk_create (v4 : Bool) : WK (Phys.create v4) :=
+  ⟨fun i hi => by simp [Phys.create] at hi, fun i hi => by simp [Phys.create] at hi⟩
+
+/-- **in every state reachable by store operations and reopens, every store operation returns a value or an
+error** — the two exits that model what the property forbids (a panic: unchecked indexing or a failed
+assertion; a hang: a loop without a bound) are both unreachable -/
+theorem store_ops_total (v4 : Bool) (ops : List GOp) (op : GOp) :
+    let g0 : G := { p := Phys.create v4, L := fun _ => 0 }
+    WritesInRange g0 ops → MiniBounded g0 ops →
+    let g := grun g0 ops
+    g.p.fat.size + 6 * opCost op ≤ MAXREG + 1 →
+    (∃ g', gstep g op = .ok g') ∨ (∃ k, gstep g op = .err k) := by
+  intro g0 hw hm g hroom
+  have w : WK g.p := wk_grun ops g0 (wk_create v4)
+  exact total_of_np_nh (np_gstep g op w).1 (store_ops_never_hang v4 ops op hw hm hroom)
+
 end CfbVerif.Phys
